@@ -119,9 +119,7 @@ impl BlockHeight {
 #[verifier::external_body] pub struct Bytes { _p: u8 }
 impl View for Bytes { type V = Seq<u8>; uninterp spec fn view(&self) -> Seq<u8>; }
 impl Clone for Bytes { #[verifier::external_body] fn clone(&self) -> (r: Self) ensures r == *self { unimplemented!() } }
-impl Bytes {
-    #[verifier::external_body] pub fn default() -> (r: Bytes) ensures r@ == Seq::<u8>::empty() { unimplemented!() }
-}
+impl Default for Bytes { #[verifier::external_body] fn default() -> (r: Bytes) ensures r@ == Seq::<u8>::empty() { unimplemented!() } }
 impl core::ops::Deref for Bytes { type Target = [u8]; #[verifier::external_body] fn deref(&self) -> (r: &[u8]) ensures r@ == self@ { unimplemented!() } }
 pub broadcast axiom fn axiom_bytes_ext(a: Bytes, b: Bytes) requires #[trigger] a@ == #[trigger] b@ ensures a == b;
 
@@ -220,3 +218,9 @@ impl PartialEq<StrLit> for HexString { #[verifier::external_body] fn eq(&self, o
 // std methods vstd does not specify
 pub assume_specification<T, E> [std::result::Result::<T, E>::unwrap_or] (r: std::result::Result<T, E>, d: T) -> (v: T)
     ensures v == (match r { Ok(x) => x, Err(_) => d });
+
+// ---- canonical pool keys of the built-in pools (PoolKey::new orders the two denominations by their byte encodings:
+// ERG "d" < MEL "m" < SYM "s")
+pub open spec fn pk_mel_sym() -> PoolKey { PoolKey { left: Denom::Mel, right: Denom::Sym } }
+pub open spec fn pk_mel_erg() -> PoolKey { PoolKey { left: Denom::Erg, right: Denom::Mel } }
+pub open spec fn pk_erg_sym() -> PoolKey { PoolKey { left: Denom::Erg, right: Denom::Sym } }
